@@ -422,7 +422,7 @@ func parseReports(out string) []raceReport {
 		for i := 1; i < len(parts) && i <= 2 && i-1 < len(kinds); i++ {
 			fn := "?"
 			for _, f := range reFrame.FindAllStringSubmatch(parts[i], -1) {
-				if strings.Contains(f[2], "/repo/") {
+				if strings.Contains(f[2], mc.RepoDir+"/") {
 					fn = f[1]
 					break
 				}
